@@ -6,6 +6,7 @@ import Driver.OpsCond
 import Driver.OpsPath
 import Driver.OpsFs
 import Driver.OpsRawXml
+import Driver.OpsUpload
 namespace Driver
 
 def dispatch (op : String) (args : List SExp) : Option OpResult :=
@@ -44,6 +45,8 @@ def dispatch (op : String) (args : List SExp) : Option OpResult :=
   | "fs.req" => opFsReq args
   | "raw.rt" => opRawRt args
   | "raw.typed" => opRawTyped args
+  | "up" => opUpload args
+  | "conc" => opConc args
   | "card.filter" => opCardFilter args
   | _ => none
 
